@@ -7,6 +7,7 @@ Added to the rule table of cpp2coq_utmap.py:
     output.emplace_back(key, b)                                           output ++ [(key, b)]
     output.reserve(n)                                                     no effect (capacity of a local output vector)
     keyed_element e;   (no m_value)                                       (tt, singular m_ttl_position)
+    keyed_element{}    (no m_value; rule of cpp2coq_utmap.py)                 (tt, singular m_ttl_position)
 """
 import cpp2coq
 import cpp2coq_utmap
